@@ -82,6 +82,17 @@ Lemma exposed_headers method hs r :
                          eq_ic (fst h) n_transfer_encoding)) hs.
 Proof. intros Hfv Hr. exact (proj1 (proj2 (proj2 (proj2 (proj2 (accepted_request method hs r Hfv Hr)))))). Qed.
 
+(* C14 at request level: the oracle of the correspondence check holds of the model, for every sent list *)
+Lemma oracle_c14_req_model method hs r :
+  values_fv hs = true -> request_of_head method hs = QOk r -> oracle_c14_req hs (rq_headers r) = true.
+Proof.
+  intros Hfv Hr. pose proof (accepted_request method hs r Hfv Hr) as H.
+  destruct H as (_ & _ & _ & _ & He & _). unfold oracle_c14_req. rewrite He.
+  apply andb_true_iff. split; [now apply hlist_beq_eq|].
+  destruct (all_ascii hs) eqn:Ha; [|reflexivity]. cbn [negb orb].
+  unfold spec_exposed. now apply all_ascii_filter.
+Qed.
+
 (* the classes of the quantifier, spelled out *)
 Lemma repeated_cl_invalid v1 v2 r : classify_cl (v1 :: v2 :: r) = ClInvalid.
 Proof. reflexivity. Qed.
